@@ -498,6 +498,22 @@ def match_phase(chk, hy, env, n_forms, depth):
         for i, (pat, guard, bn) in enumerate(cases):
             body_hy = "[%d %s]" % (i, " ".join(unmangle(n) for n in bn))
             body_py = "[%s]" % ", ".join([str(i)] + bn)
+            bstyle = rng.random()
+            if bstyle < 0.3:
+                # the result form is an and/or (possibly ending a do) whose FIRST operand compiles to statements
+                # (if with a do branch / try): the form's value is the and/or's, not the first operand's
+                second_hy = "[%d %s]" % (i + 100, " ".join(unmangle(n) for n in bn))
+                second_py = "[%s]" % ", ".join([str(i + 100)] + bn)
+                k = rng.randrange(6)
+                first_hy = ["(if True (do (setv body-tmp 1) %s) 0)", "(try (do (setv body-tmp 2) %s) (except [ValueError] 0))",
+                            "(if False 0 (do (setv body-tmp 3) %s))"][k % 3] % (body_hy if k < 3 else "[]")
+                if k < 3:      # and: truthy first operand -> the second operand
+                    body_hy, body_py = "(and %s %s)" % (first_hy, second_hy), second_py
+                else:          # or: falsy first operand -> the second operand
+                    body_hy, body_py = "(or %s %s)" % (first_hy, second_hy), second_py
+                if rng.random() < 0.4:
+                    body_hy = "(do (setv body-tmp 0) %s)" % body_hy
+                chk.count("match-body:and-or-with-statement-operand")
             hy_cases.append("%s%s %s" % (P.pat_hy(pat), (" :if " + guard[0]) if guard else "", body_hy))
             py_cases.append("        case %s%s:\n            result = %s" % (
                 P.pat_python(pat), (" if " + guard[1]) if guard else "", body_py))
